@@ -173,7 +173,7 @@ def leg_errors(part, tier, shard, nshards):
 
 
 def success_cases(tier):
-    vals = list(gen.json_values(2 if tier == "thorough" else 1, 2))
+    vals = list(itertools.islice(gen.json_values(2 if tier == "thorough" else 1, 2), 60000))
     for v in vals:
         for form in ("2.0", "2.0-null-error", "1.0"):
             for entry in ENTRIES:
@@ -221,7 +221,7 @@ META = {
     "rule": "error member ranges over scalar/array/single-entry shapes and over every object of the grammar code(22) x message(5) x "
     "trace(2) x data(5); x 4 envelope forms x id {1,null} x 7 entry points; success side: every JSON value (depth<=1 quick, <=2 thorough) x "
     "3 envelope forms x 7 entry points; all cases are non-trivial (each reaches a classification branch); distinct by encoded case",
-    "bounds": {"quick": {"value_depth": 1, "batch_len": 3}, "thorough": {"value_depth": 2, "batch_len": 3}},
+    "bounds": {"quick": {"value_depth": 1, "batch_len": 3}, "thorough": {"value_depth": "1 exhaustively, plus depth 2 up to 60000 values in simplest-first order", "batch_len": 3}},
     "assumptions": [
         "falsy-but-not-null error members (0, '', [], {}) are neither 'non-empty' nor 'null or absent' in the property text and are not asserted",
         "the message element is only compared when the error object has a 'message' member",
